@@ -289,7 +289,12 @@ Dyk(e) ==
             <<"dyk_sweep_cap", {"C15"}, e.sweeps <= e.maxiter>>,
             <<"dyk_result_is_last_projection", {"C15", "C09"}, e.out_is_last>>,
             <<"dyk_box_last_exact", {"C09", "C15"}, (e.site \in {"model", "solver"} /\ Cfg.hasproj) => \A j \in 1..Len(e.boxpos) : e.boxpos[j] \in 1..3>>,
-            <<"dyk_feasible_when_converged", {"C09", "C15"}, (e.site \in {"model", "solver"} /\ Cfg.hasproj /\ byrule /\ e.tolok) => e.feas = "ok">> >>)
+            <<"dyk_feasible_when_converged", {"C09", "C15"}, (e.site \in {"model", "solver"} /\ Cfg.hasproj /\ byrule /\ e.tolok) => e.feas = "ok">>,
+            \* direct calls of the routine (harness/c15.py): classes against a reference projection computed to machine precision
+            <<"dyk_within_tol_of_every_set", {"C15"}, (e.site = "direct" /\ byrule) => e.feas = "ok">>,
+            <<"dyk_near_true_projection", {"C15"}, (e.site = "direct" /\ byrule) => e.refok>>,
+            <<"dyk_feasible_input_unchanged", {"C15"}, e.site = "direct" => e.idemok>>,
+            <<"dyk_last_box_exact", {"C15"}, e.site = "direct" => e.lastboxok>> >>)
   /\ dykout' = IF e.site \in {"model", "solver"} THEN dykout \cup {<<e.outxid, byrule>>} ELSE dykout
   /\ UNCH(<<nf, nx, mdl, nruns, restarts, best, bestjac, besthasjac, hardLSR, lastRun, rho, delta, rhobegr, lastexit, batch, lastreq, x0st, curxid, ptxid,
             bestf, bestBeforeFault, faulted, raisedSeen, runrho, softopen>>)
